@@ -3,7 +3,7 @@
 # check of its property (plus checks named in extra.txt), record exit codes and first violation; undo.  Never touches /repo.
 R="$1"; PAT="${2:-C*}"; export VERIF_OUT=/tmp/mx_out_$$; cd "$(dirname "$0")/.." || exit 2
 [ -d "$R/.git" ] || [ -f "$R/.git" ] || { echo "need a git checkout"; exit 2; }
-for d in seeded/$PAT; do
+for d in $(for p in $PAT; do ls -d seeded/$p; done); do
   id=$(basename "$d"); pid=${id%-*}
   git -C "$R" checkout -q -- . ; git -C "$R" apply "$PWD/$d/patch.diff" || { echo "$id APPLY-FAILED"; continue; }
   extra=""; [ -f "$d/extra.txt" ] && extra=$(cat "$d/extra.txt")
